@@ -25,7 +25,8 @@ RULE = ("E2: breadth-first search over operation histories of real Bec2File obje
         "one key == object key == key that verifies the directory MACs and decrypts the encrypted configuration component; unopened blocks must be byte-identical to what was read; every New "
         "consumes exactly one 16-byte draw which becomes the key; every packed ECC block consumes fresh entropy and its ephemeral point is new "
         "in the history. E1 ('splice', ...): every ordered pair of block kinds x key pairs K1 != K2 (4 key classes, plus keys differing in each single bit) spliced into one header (body MACed with "
-        "either): rejected with both decryptors, accepted with one decryptor iff the body matches that block's key; ('multisplice', ...) headers of 2..3 blocks INCLUDING several blocks of the same tag (two ECC blocks for different selectors, two customer-key blocks, ...) x every assignment of two keys: accepted exactly when all blocks agree.")
+        "either): rejected with both decryptors, accepted with one decryptor iff the body matches that block's key; ('multisplice', ...) headers of 2..3 blocks INCLUDING several blocks of the same tag (two ECC blocks for different selectors, two customer-key blocks, ...) x every assignment of two keys: accepted exactly when all blocks agree."
+        " Spliced headers are read with and without MAC checking (agreement of the blocks does not depend on it); the caller's encryptor lists start with the selector-2 entry so that selector 0 is never matched by position.")
 ASSUMPTIONS = [
     "canonical-state merging assumes operations depend only on the hashed fields plus the randomness stream; hidden library-global state is still "
     "caught because every check is phrased per transition (draws consumed by this operation, points new in this history)",
